@@ -544,7 +544,7 @@ impl<const H: usize> Reader<H> {
         // Sync to ensure durability
         self.file.sync_data()?;
         #[cfg(feature = "verif")]
-        crate::verif::point("fsync", crate::verif::fd_of(&self.file), offset);
+        crate::verif::point("fsync:header", crate::verif::fd_of(&self.file), offset);
 
         Ok(true)
     }
